@@ -7,7 +7,7 @@ mkdir -p .build evidence replays
 python3 tools/gen.py /repo/src || exit 1
 tools/mkproject.sh || exit 1
 # build exactly the cones of the claimed properties (theorems and correspondence definitions)
-targets=$(python3 -c "import json; print(' '.join('Props/%s.vo Check/%s.vo' % (c['property_id'], c['property_id']) for c in json.load(open('MANIFEST.json'))['checks']))")
+targets=$(python3 -c "import json; import glob; print(' '.join(' '.join(['Props/%s.vo' % c['property_id'], 'Check/%s.vo' % c['property_id']] + [f[4:]+'o' for f in sorted(glob.glob('coq/Props/%s_*.v' % c['property_id']))]) for c in json.load(open('MANIFEST.json'))['checks']))")
 ( cd coq && timeout 7000 make -j16 $targets ) || exit 1
 [ -f harness/Cargo.lock ] || cp /repo/Cargo.lock harness/Cargo.lock
 for v in native_dev native_release portable_dev portable_release; do
